@@ -120,6 +120,15 @@ def is_pure_event(e):
     return False
 
 
+# trusted-base equivalences between two external entry points (documented contract of the crate, stated here once):
+#   cobs::decode_in_place(buf) == cobs::decode_in_place_report(buf).map(|r| r.dst_used)      (cobs 0.2.x: both expand the same decoder)
+EFFECT_ALIAS = {"cobs::decode_in_place": ("cobs::decode_in_place_report", ".dst_used")}
+
+
+def _effect_alias(name):
+    return EFFECT_ALIAS.get(name, (name, ""))[0]
+
+
 def _alias(nm):
     """accessors that denote the same value"""
     return {"as_mut_ptr": "as_ptr"}.get(nm, nm)
@@ -437,6 +446,8 @@ class CT:
             return r(x[1])      # From<T> for T / error conversions between equal types: C-rules that care check the variant
         if k == "okval" and x[1][0] == "call" and re.match(r"^(core|std)::result::Result<\(\), ", x[1][4] or ""):
             return "()"         # the only value of the unit type
+        if k == "okval" and x[1][0] == "call" and (x[1][2] or "") in EFFECT_ALIAS:
+            return "okval(%s)%s" % (r(x[1]), EFFECT_ALIAS[x[1][2]][1])
         if k in ("okval", "errval", "someval", "try", "residual", "tag", "tagflip", "to_bits", "from_bits"):
             return "%s(%s)" % (k, r(x[1]))
         if k == "len":
@@ -828,7 +839,7 @@ def _path_outcome(F, fn, p, extra, hide_calls=(), renames=None):
                 continue
             flush()
             import summ
-            evs.append("#%d = %s(%s)" % (ct.ids[e["id"]], summ.call_name(e), ", ".join(_arg_text(ct, a, sn) for a, sn in zip(e["args"], e["snap"]))))
+            evs.append("#%d = %s(%s)" % (ct.ids[e["id"]], _effect_alias(summ.call_name(e)), ", ".join(_arg_text(ct, a, sn) for a, sn in zip(e["args"], e["snap"]))))
         elif e["k"] == "write":
             seg[ct.loc(e["loc"])] = ct.t(norm(ct.resolve(e["val"])))
         elif e["k"] == "rawderef":
